@@ -6,7 +6,7 @@ CONSTANTS
   FieldSet <- MultiFieldSet
   Admissible <- MultiAdmissible
   MaxVariants = 2
-  MaxFields = 2
+  MaxFields = 3
   MaxDeviations = 2
   EnumDeviations = 1
   TraitSets <- TraitSetsQuick
